@@ -130,7 +130,7 @@ fn exercise(map: &Beatmap, rng: &mut Rng) -> usize {
         }
         if (t == 1 || t == 3) && rng.chance(1, 3) {
             st.repr = 4;
-            st.lazer_extra = rng.below(8) as u8;
+            st.lazer_extra = rng.below(16) as u8;
         }
         if rng.chance(1, 3) {
             st.passed = Some(rng.below(map.hit_objects.len() as u64 + 3) as u32);
